@@ -22,7 +22,8 @@ pub fn run<S: InterpreterTrait>(interpreter: &mut S) -> Result<(), RuntimeError>
             }
             _ => Err(RuntimeError::SubscriptOutOfRange),
         },
-        _ => Err(RuntimeError::TypeMismatch),
+        // a dynamic array that has not been dimensioned yet
+        _ => Err(RuntimeError::SubscriptOutOfRange),
     }
 }
 
